@@ -917,6 +917,9 @@ impl<'a> Ctx<'a> {
     }
 
     fn small_index(&mut self, size: usize) -> Expr {
+        if self.k.odd_permille > 0 && self.rng.below(1000) < self.k.odd_permille as u64 {
+            return self.odd_expr(0);
+        }
         if !self.loop_vars.is_empty() && self.rng.chance(1, 2) {
             let v = self.rng.pick(&self.loop_vars).clone();
             return Expr::Var(v);
